@@ -732,22 +732,21 @@ def _writer_code(sq, W, wparams, reserved):
 
 
 def _observe_reader_lists_all(sq):
-    """SqliteReader.table_names on databases written by the real writer with adversarial table names"""
+    """SqliteReader.table_names / __iter__ on a probe database with adversarial table names"""
     import os
     import shutil
     import sqlite3 as real_sqlite3
-    from flow.record import RecordDescriptor
     names = ["sqlite", "sqlite/table_row", "sqlite3/row", "SQLiteDump", "Sqlite/x", "sqlitex", "SQLITE/STAT1", "sqlite0_a", "select", "table",
              "index", "Order/by", "a_b", "x_", "t/x_y_z", "temp/x", "main/t", "pragma", "plain/name", "T1"]
     tmp = "/verif/.work/factgen_c18r.%d" % os.getpid()
     os.makedirs(tmp, exist_ok=True)
     try:
         path = os.path.join(tmp, "r.db")
-        w = sq.SqliteWriter(path)
+        con = real_sqlite3.connect(path)             # built without the writer: this fact is about the reader alone
         for n in names:
-            w.write(RecordDescriptor(n, [("string", "a")])(a="1"))
-        w.close()
-        con = real_sqlite3.connect(path)
+            con.execute('CREATE TABLE "%s" ("a" TEXT, "_generated" TIMESTAMPTZ)' % n)
+            con.execute('INSERT INTO "%s" ("a") VALUES (?)' % n, ("1",))
+        con.commit()
         want = [r[0] for r in con.execute("SELECT name FROM sqlite_master WHERE type='table'")]
         con.close()
         rd = sq.SqliteReader(path)
